@@ -145,7 +145,7 @@ def gen_case(rng, tier, i):
             k = int(rng.integers(1, K))
             su = spec['surfaces'][k - 1]
             kind = str(rng.choice(['index', 'radius', 'thickness']))
-            if kind == 'index' and su.get('medium') != 'mirror':
+            if kind == 'index' and k < K - 1 and su.get('medium') != 'mirror' and spec['surfaces'][k].get('medium') != 'mirror':
                 edits.append(['index', k, round(float(rng.uniform(1.3, 1.95)), 6)])
             elif kind == 'radius' and su.get('type', 'standard') == 'standard' and su.get('radius', 'inf') != 'inf':
                 edits.append(['radius', k, round(float(su['radius']) * float(rng.uniform(0.7, 1.5)), 6)])
